@@ -177,10 +177,11 @@ qlisttbl_t *qconfig_parse_file(qlisttbl_t *tbl, const char *filepath,
                 return NULL;
             }
 
-            // replace
-            strncpy(buf, strp, CONST_STRLEN(_INCLUDE_DIRECTIVE) + len);
-            buf[CONST_STRLEN(_INCLUDE_DIRECTIVE) + len] = '\0';
-            strp = qstrreplace("sn", str, buf, incdata);
+            // replace, the directive itself doesn't fit into buf with a long path
+            char token[CONST_STRLEN(_INCLUDE_DIRECTIVE) + PATH_MAX];
+            strncpy(token, strp, CONST_STRLEN(_INCLUDE_DIRECTIVE) + len);
+            token[CONST_STRLEN(_INCLUDE_DIRECTIVE) + len] = '\0';
+            strp = qstrreplace("sn", str, token, incdata);
             free(incdata);
             free(str);
             str = strp;
